@@ -640,6 +640,7 @@ func runC11(c *kc.Ctx) {
 	c11Rabin(c, rng.Fork("rabin"))
 	c11Protocol(c, rng.Fork("protocol"))
 	c11PacketBinding(c, rng.Fork("packets"))
+	c11RabinPacketBinding(c, rng.Fork("rabin-packets"))
 	_ = sort.Ints
 }
 
